@@ -8,6 +8,8 @@
  *   async <sign|ext> <uri-hex> <login|~> <key|~> KSI_AsyncService_setEndpoint
  *   svc2 <agg|ext> <uri1-hex> <uri2-hex> <login|~> <key|~>   the blocking setter twice on one context => <status1> <status2> <H|T|F: the
  *                                            transport that serves the service afterwards>
+ *   route <aggregator-uri-hex> <extender-uri-hex>   both set on one context (login L, key K), then a signing and an extending request are
+ *                                            sent through the context's network provider => <status1> <status2> S<H|T|F> E<H|T|F>: the transport each went to
  * strings are hex, "-" = empty, "~" = NULL
  */
 #include "common.h"
@@ -51,6 +53,12 @@ WRAP_URL(KSI_FsClient_setExtender, "F")
 WRAP_HOST(KSI_TcpClient_setAggregator, "T")
 WRAP_HOST(KSI_TcpClient_setExtender, "T")
 WRAP_HOST(KSI_TcpAsyncClient_setService, "T")
+
+/* which transport a request is handed to: the three sub clients' senders are replaced by probes */
+static struct KSI_UriClient_st *g_uc; static char g_hit;
+static char which_client(KSI_NetworkClient *c) { return c == g_uc->httpClient ? 'H' : c == g_uc->tcpClient ? 'T' : c == g_uc->fsClient ? 'F' : '?'; }
+static int probe_sign(KSI_NetworkClient *c, KSI_AggregationReq *r, KSI_RequestHandle **h) { (void)r; (void)h; g_hit = which_client(c); return KSI_OK; }
+static int probe_ext(KSI_NetworkClient *c, KSI_ExtendReq *r, KSI_RequestHandle **h) { (void)r; (void)h; g_hit = which_client(c); return KSI_OK; }
 
 static char *cstr(const char *hex) {
 	size_t n; unsigned char *b; char *s;
@@ -99,6 +107,22 @@ static void do_line(char *work, const char *orig) {
 		act = agg ? uc->pAggregationClient : uc->pExtendClient;
 		printf("%d %d %c", r1, r2, act == uc->httpClient ? 'H' : act == uc->tcpClient ? 'T' : act == uc->fsClient ? 'F' : '?');
 		KSI_CTX_free(c); free(u1); free(u2); free(login); free(key);
+	} else if (n >= 3 && !strcmp(w[0], "route")) {
+		/* aggregator and extender set from two URIs on one context; a signing and an extending request are sent: which transport gets which */
+		char *u1 = cstr(w[1]), *u2 = cstr(w[2]); KSI_CTX *c = NULL; int r1, r2; KSI_NetworkClient *subs[3]; int i; char s_hit, e_hit;
+		KSI_AggregationReq *ar = NULL; KSI_ExtendReq *er = NULL; KSI_RequestHandle *h = NULL;
+		if (KSI_CTX_new(&c) != KSI_OK) { printf("CTX-FAILED"); return; }
+		r1 = KSI_CTX_setAggregator(c, u1, "L", "K");
+		r2 = KSI_CTX_setExtender(c, u2, "L", "K");
+		g_uc = (struct KSI_UriClient_st *)c->netProvider->impl;
+		subs[0] = g_uc->httpClient; subs[1] = g_uc->tcpClient; subs[2] = g_uc->fsClient;
+		for (i = 0; i < 3; i++) if (subs[i] != NULL) { subs[i]->sendSignRequest = probe_sign; subs[i]->sendExtendRequest = probe_ext; }
+		KSI_AggregationReq_new(c, &ar); KSI_ExtendReq_new(c, &er);
+		g_hit = '?'; KSI_NetworkClient_sendSignRequest(c->netProvider, ar, &h); s_hit = g_hit; KSI_RequestHandle_free(h); h = NULL;
+		g_hit = '?'; KSI_NetworkClient_sendExtendRequest(c->netProvider, er, &h); e_hit = g_hit; KSI_RequestHandle_free(h);
+		printf("%d %d S%c E%c", r1, r2, s_hit, e_hit);
+		KSI_AggregationReq_free(ar); KSI_ExtendReq_free(er);
+		KSI_CTX_free(c); free(u1); free(u2);
 	} else if (n >= 5 && !strcmp(w[0], "async")) {
 		char *uri = cstr(w[2]), *login = cstr(w[3]), *key = cstr(w[4]); KSI_AsyncService *as = NULL; int r;
 		r = !strcmp(w[1], "sign") ? KSI_SigningAsyncService_new(ctx, &as) : KSI_ExtendingAsyncService_new(ctx, &as);
